@@ -1,6 +1,7 @@
 package main
 
 import (
+	"path"
 	"bufio"
 	"fmt"
 	"go/parser"
@@ -145,9 +146,60 @@ func LoadEngine(repo string) (*Engine, error) {
 			e.funcByKey[pkgOf(f).Pkg.Path()+" "+relFuncName(f)] = f
 		}
 	}
+	e.expandGlobContracts()
 	e.impliedRecoverContracts()
 	// package-level function variables initialised once with a function (timeNow = time.Now) are NOT resolved: tests replace them.
 	return e, nil
+}
+
+// expandGlobContracts: a contract whose key contains `*` (e.g. `func to*ExtensionFieldsProto`) stands
+// for one contract per package-level function of the package whose name matches the pattern and
+// that has no contract of its own; functions added later are covered without touching the file.
+// A pattern that matches nothing is reported like a contract naming a function that does not exist.
+func (e *Engine) expandGlobContracts() {
+	for pp, pc := range e.contracts {
+		var keys []string
+		for k := range pc.Funcs {
+			if strings.Contains(k, "*") {
+				keys = append(keys, k)
+			}
+		}
+		sort.Strings(keys)
+		for _, k := range keys {
+			g := pc.Funcs[k]
+			var names []string
+			for fk, f := range e.funcByKey {
+				if !strings.HasPrefix(fk, pp+" ") || f.Parent() != nil || f.Signature.Recv() != nil || len(f.Blocks) == 0 {
+					continue
+				}
+				name := strings.TrimPrefix(fk, pp+" ")
+				if ok, _ := path.Match(k, name); ok {
+					if _, has := pc.Funcs[name]; !has {
+						names = append(names, name)
+					}
+				}
+			}
+			sort.Strings(names)
+			if len(names) == 0 {
+				continue // stays in pc.Funcs under its pattern and is reported as unresolved
+			}
+			delete(pc.Funcs, k)
+			var order []string
+			for _, o := range pc.Order {
+				if o == k {
+					order = append(order, names...)
+				} else {
+					order = append(order, o)
+				}
+			}
+			pc.Order = order
+			for _, n := range names {
+				c := *g
+				c.Key = n
+				pc.Funcs[n] = &c
+			}
+		}
+	}
 }
 
 // firstDeferred returns the function called by the first `defer` of fn's entry block when nothing
